@@ -169,6 +169,25 @@ CHECKS = {
              "placeholders with pending side effects are C06's.",
         technique="contract-based deductive verification: mechanical production inventory + rejecting (raises) contracts + fold "
                   "invariant on the item consumers + per-callback injection obligations, native source-level replay"),
+    "C08": dict(
+        category="proof",
+        text="Calling convention: cast_arg_list for argument lists of ANY length (fold invariant over enumerate(zip(args, params)): "
+             "position k alone is replaced, by a well-formed node of the parameter type denoting conv_C11(argument), external / "
+             "untyped / string arguments pass through, count mismatch rejected); build_arg_list for ANY length (comma-joined, "
+             "values read exactly once, operands of external type by operand variable / parameter name); sub_routine and "
+             "macro_expr callbacks per type combination (call of the registered routine, placeholder of the declared return type, "
+             "unknown names and count mismatch rejected); C type spelling table; add_sub_routine / compile_sub_routine "
+             "(parameters in order, own transformer). Isolation: temporary naming contract <prefix>h_tmp<N> for symbolic N, "
+             "compile_sub_routine passes '<name>_', and string lemmas (z3 seq, cvc5) that callee and caller temporaries differ "
+             "for all names and numberings incl. nested calls; locals: ground over the 13 bundled bodies + API witness "
+             "(known findings F10b F10c).",
+        design_ref="DESIGN.md section 3, C08",
+        note=TRUST + "IL locals and ret_val are instruction wide and hex_<routine>() runs the compiled body (T-RZIL/T-PLUGIN); the return "
+             "path is C03's return lemma; 'the body computes what its C source computes' is C01's composition (T-IND); f-string "
+             "rendering of ints as digit strings (T-STR).",
+        technique="contract-based deductive verification: fold (loop) invariants for the argument loops, postconditions on the call "
+                  "callbacks against conv_C11, naming contracts + string disjointness lemmas discharged by z3/cvc5, ground "
+                  "obligations over the bundled routines, native replay"),
     "C07": dict(
         category="proof",
         text="Complete finite case analysis over the operand spellings the grammar terminals admit: every register class letter x "
